@@ -119,7 +119,8 @@ def gen_sysregs(rng, cfg, thumb_entry=None):
     st = {}
     sctlr = 0
     sctlr |= (rng.getrandbits(1) << 1)        # A
-    sctlr |= (rng.getrandbits(1) << 22)       # U
+    arch = cfg.get('arch_version', 6)
+    sctlr |= ((rng.getrandbits(1) if arch == 6 else (1 if arch >= 7 else 0)) << 22)       # U: v6 only; RAO on v7, absent before v6
     sctlr |= ((1 if rng.random() < 0.25 else 0) << 13)   # V
     te = rng.getrandbits(1) if thumb_entry is None else thumb_entry
     sctlr |= te << 30
